@@ -337,4 +337,273 @@ Section Den.
   Corollary cached_denotes Ls : Forall (fun L => binds_some ks L = true /\ asked L) Ls ->
     Forall2 (fun rows L => forall b o, den rows b o <-> (In (b, o) rel /\ compatible ks b L = true)) (cached_run_f (init ks) Ls) Ls.
   Proof. apply cached_run_denotes, goodD_init. Qed.
+
+  (* ================= a covered lookup is answered with ONE row: the lookup itself =================
+     What the selection of the most general retrieved rows is for.  A lookup L is covered when some stored binding is contained in
+     it; that entry merged into L is L itself, every other retrieved row is L plus the entry's further keys - so L is contained in
+     every retrieved row, and (all retrieved rows carrying the same truth flag, because a full row extends entry and lookup) the
+     selection keeps exactly one row, L.  Hence no assignment comes out twice: a cached answer is either the operator's own rows
+     or this single row. *)
+  Lemma aset_length_ge (a : assignment) k v : length a <= length (aset a k v).
+  Proof. induction a as [|[k' v'] a IH]; cbn [aset length]; [lia|]. destruct (Nat.eqb k k'); cbn [length]; lia. Qed.
+  Lemma aset_length_new (a : assignment) k v : aget a k = None -> length (aset a k v) = S (length a).
+  Proof.
+    induction a as [|[k' v'] a IH]; cbn [aset aget length]; intros H; [reflexivity|].
+    destruct (Nat.eqb k k'); [discriminate|]. cbn [length]. now rewrite IH.
+  Qed.
+
+  Lemma merge_shape L e :
+    (merge ks L e = L \/ length L < length (merge ks L e)) /\ (forall k v, aget L k = Some v -> aget (merge ks L e) k = Some v).
+  Proof.
+    unfold merge.
+    assert (G : forall ks0 acc, (acc = L \/ length L < length acc) /\ (forall k v, aget L k = Some v -> aget acc k = Some v) ->
+              (fold_left (fun acc k0 => match aget L k0, aget e k0 with None, Some v => aset acc k0 v | _, _ => acc end) ks0 acc = L \/
+               length L < length (fold_left (fun acc k0 => match aget L k0, aget e k0 with None, Some v => aset acc k0 v | _, _ => acc end) ks0 acc)) /\
+              (forall k v, aget L k = Some v ->
+                 aget (fold_left (fun acc k0 => match aget L k0, aget e k0 with None, Some v => aset acc k0 v | _, _ => acc end) ks0 acc) k = Some v)).
+    { induction ks0 as [|k0 ks0 IH]; intros acc H; cbn [fold_left]; [exact H|]. apply IH.
+      destruct (aget L k0) eqn:A; [exact H|]. destruct (aget e k0) as [w|]; [|exact H].
+      destruct H as [H1 H2]. split.
+      - right. destruct H1 as [->|H1]; [rewrite aset_length_new by exact A; lia | pose proof (aset_length_ge acc k0 w); lia].
+      - intros k v Hk. rewrite aget_aset_other; [now apply H2|]. intros ->. congruence. }
+    apply G. split; [now left | auto].
+  Qed.
+
+  Lemma merge_covered L e : (forall k, In k ks -> aget L k = None -> aget e k = None) -> merge ks L e = L.
+  Proof.
+    unfold merge. intros H.
+    assert (G : forall ks0 acc, (forall k, In k ks0 -> aget L k = None -> aget e k = None) ->
+              fold_left (fun acc k0 => match aget L k0, aget e k0 with None, Some v => aset acc k0 v | _, _ => acc end) ks0 acc = acc).
+    { induction ks0 as [|k0 ks0 IH]; intros acc H0; cbn [fold_left]; [reflexivity|].
+      rewrite IH by (intros k Hk; apply H0; now right).
+      destruct (aget L k0) eqn:A; [reflexivity|]. now rewrite (H0 k0 (or_introl eq_refl) A). }
+    now apply G.
+  Qed.
+
+  Lemma In_aget_nodup (a : assignment) k v : NoDup (map fst a) -> In (k, v) a -> aget a k = Some v.
+  Proof.
+    induction a as [|[k' v'] a IH]; intros N H; [destruct H|]. cbn [map fst] in N. inversion N as [|? ? N1 N2]; subst.
+    cbn [aget]. destruct H as [H|H].
+    - injection H as -> ->. now rewrite Nat.eqb_refl.
+    - destruct (Nat.eqb k k') eqn:E; [|now apply IH]. apply Nat.eqb_eq in E. subst k'. exfalso. apply N1.
+      apply in_map_iff. exists (k, v). now split.
+  Qed.
+
+  Lemma covers_extends L m : NoDup (map fst L) -> (forall k v, aget L k = Some v -> aget m k = Some v) -> covers L m = true.
+  Proof.
+    intros N H. unfold covers. apply forallb_forall. intros [k v] I. cbn [fst snd].
+    rewrite (H k v (In_aget_nodup L k v N I)). apply Nat.eqb_refl.
+  Qed.
+
+  Lemma entry_eq_dec (x y : entry) : {x = y} + {x <> y}.
+  Proof. repeat decide equality. Qed.
+
+  Lemma in_split_first {A} (dec : forall x y : A, {x = y} + {x <> y}) (x : A) l :
+    In x l -> exists pre post, l = pre ++ x :: post /\ ~ In x pre.
+  Proof.
+    induction l as [|a l IH]; intros H; [destruct H|]. destruct (dec a x) as [->|Ne].
+    - exists [], l. split; [reflexivity | intros []].
+    - destruct H as [H|H]; [contradiction|]. destruct (IH H) as (pre & post & -> & N). exists (a :: pre), post.
+      split; [reflexivity|]. intros [E|I]; [contradiction | now apply N].
+  Qed.
+
+  Lemma combine_seq_app {A} (l1 l2 : list A) : forall base,
+    combine (seq base (length (l1 ++ l2))) (l1 ++ l2)
+    = combine (seq base (length l1)) l1 ++ combine (seq (base + length l1) (length l2)) l2.
+  Proof.
+    induction l1 as [|a l1 IH]; intros base; cbn [app length seq combine].
+    - now rewrite Nat.add_0_r.
+    - rewrite IH. now replace (S base + length l1) with (base + S (length l1)) by lia.
+  Qed.
+
+  Lemma filter_none {A} (P : A -> bool) l : (forall x, In x l -> P x = false) -> filter P l = [].
+  Proof. induction l as [|a l IH]; intros H; cbn [filter]; [reflexivity|]. rewrite (H a (or_introl eq_refl)). apply IH. intros x Hx. apply H. now right. Qed.
+
+  Lemma most_general_single (rows : list entry) L o0 :
+    In (L, o0) rows -> covers L L = true ->
+    (forall e, In e rows -> snd e = o0 /\ (fst e = L \/ (length L < length (fst e) /\ covers L (fst e) = true))) ->
+    most_general rows = [(L, o0)].
+  Proof.
+    intros HIn CLL Hall. destruct (in_split_first entry_eq_dec _ _ HIn) as (pre & post & E & Npre). subst rows.
+    assert (Hpre : forall e, In e pre -> snd e = o0 /\ length L < length (fst e) /\ covers L (fst e) = true).
+    { intros [r o] He. destruct (Hall (r, o)) as [F [S|S]]; [apply in_app_iff; now left | |now split].
+      cbn [fst snd] in F, S. subst. contradiction. }
+    assert (Hpost : forall e, In e post -> snd e = o0 /\ (fst e = L \/ (length L < length (fst e) /\ covers L (fst e) = true))).
+    { intros e He. apply Hall. apply in_app_iff. right. now right. }
+    unfold most_general. rewrite combine_seq_app. cbn [length seq combine]. rewrite Nat.add_0_l.
+    pose (ix := combine (seq 0 (length pre)) pre ++ (length pre, (L, o0)) :: combine (seq (S (length pre)) (length post)) post).
+    assert (Imid : In (length pre, (L, o0)) ix) by (apply in_app_iff; right; now left).
+    pose (P := fun ie : nat * entry => negb (existsb (fun je : nat * entry => dominates (fst je) (snd je) (fst ie) (snd ie)) ix)).
+    change (map snd (filter P ix) = [(L, o0)]). unfold ix at 1. rewrite filter_app. cbn [filter].
+    assert (H1 : forall x, In x (combine (seq 0 (length pre)) pre) -> P x = false).
+    { intros [j e] Hj. apply in_indexed in Hj as [_ Hj]. rewrite Nat.sub_0_r in Hj.
+      assert (Jlt : j < length pre) by (apply nth_error_Some; congruence). apply nth_error_In in Hj.
+      destruct (Hpre e Hj) as (F & Len & C). unfold P. cbn [fst snd]. apply Bool.negb_false_iff. apply existsb_exists.
+      exists (length pre, (L, o0)). split; [exact Imid|]. cbn [fst snd]. unfold dominates. cbn [fst snd].
+      rewrite F, Nat.eqb_refl, C. assert (X : Nat.eqb j (length pre) = false) by (apply Nat.eqb_neq; lia). rewrite X.
+      assert (Y : Nat.ltb (length L) (length (fst e)) = true) by now apply Nat.ltb_lt. now rewrite Y. }
+    assert (H3 : forall x, In x (combine (seq (S (length pre)) (length post)) post) -> P x = false).
+    { intros [j e] Hj. apply in_indexed in Hj as [Jge Hj]. apply nth_error_In in Hj.
+      destruct (Hpost e Hj) as (F & S). unfold P. cbn [fst snd]. apply Bool.negb_false_iff. apply existsb_exists.
+      exists (length pre, (L, o0)). split; [exact Imid|]. cbn [fst snd]. unfold dominates. cbn [fst snd].
+      rewrite F, Nat.eqb_refl. assert (X : Nat.eqb j (length pre) = false) by (apply Nat.eqb_neq; lia). rewrite X.
+      destruct S as [->|[Len C]].
+      - rewrite CLL, Nat.eqb_refl, Nat.ltb_irrefl. assert (Y : Nat.ltb (length pre) j = true) by (apply Nat.ltb_lt; lia). now rewrite Y.
+      - rewrite C. assert (Y : Nat.ltb (length L) (length (fst e)) = true) by now apply Nat.ltb_lt. now rewrite Y. }
+    assert (H2 : P (length pre, (L, o0)) = true).
+    { unfold P. cbn [fst snd]. apply Bool.negb_true_iff. apply Bool.not_true_iff_false. intros D.
+      apply existsb_exists in D as ([j e] & Hj & D). cbn [fst snd] in D. unfold dominates in D. cbn [fst snd] in D.
+      apply andb_prop in D as [D _]. apply andb_prop in D as [D Dl]. apply andb_prop in D as [Dn _].
+      apply Bool.negb_true_iff, Nat.eqb_neq in Dn.
+      apply in_app_iff in Hj as [Hj|[Hj|Hj]].
+      - apply in_indexed in Hj as [_ Hj]. rewrite Nat.sub_0_r in Hj. apply nth_error_In in Hj. destruct (Hpre e Hj) as (_ & Len & _).
+        apply Bool.orb_prop in Dl as [Dl|Dl]; [apply Nat.ltb_lt in Dl; lia|]. apply andb_prop in Dl as [Dl _]. apply Nat.eqb_eq in Dl. lia.
+      - injection Hj as <- _. now apply Dn.
+      - apply in_indexed in Hj as [Jge Hj]. apply nth_error_In in Hj. destruct (Hpost e Hj) as (_ & S).
+        apply Bool.orb_prop in Dl as [Dl|Dl].
+        + apply Nat.ltb_lt in Dl. destruct S as [S|[S _]]; [rewrite S in Dl|]; lia.
+        + apply andb_prop in Dl as [_ Dl]. apply Nat.ltb_lt in Dl. lia. }
+    rewrite (filter_none P _ H1), (filter_none P _ H3), H2. reflexivity.
+  Qed.
+
+  (* the further invariants: every covered binding still has an entry, and every entry is (on the keys) a row of the operator *)
+  Definition SeenStored (s : both) : Prop :=
+    forall a, In a (spec_seen s) -> exists e o, In (e, o) (spec s) /\ pattern ks e = pattern ks a.
+  Definition Orig (s : both) : Prop :=
+    forall e o, In (e, o) (spec s) -> exists L0 r o0, asked L0 /\ In (r, o0) (f L0) /\ pattern ks e = pattern ks r.
+  Definition GoodS (s : both) : Prop := GoodD s /\ SeenStored s /\ Orig s.
+
+  Lemma goodS_init : GoodS (init ks).
+  Proof. split; [apply goodD_init|]. split; [intros a [] | intros e o []]. Qed.
+
+  Lemma extra_store L rows : asked L -> (forall r o, In (r, o) rows -> In (r, o) (f L)) ->
+    forall s, keys (impl s) = ks -> SeenStored s -> Orig s -> SeenStored (store_all s rows) /\ Orig (store_all s rows).
+  Proof.
+    intros AL. induction rows as [|[r o] rows IH]; intros Hrows s K SS Or; [now split|].
+    change (store_all s ((r, o) :: rows)) with (store_all (fst (step s (OIns r o))) rows).
+    apply IH.
+    - intros r0 o0 H. apply Hrows. now right.
+    - now rewrite keys_step.
+    - cbn [step fst spec spec_seen]. rewrite K. intros a Ha. apply in_app_iff in Ha as [Ha|[<-|[]]].
+      + destruct (SS a Ha) as (e & o1 & He & P). destruct (spec_insert_keeps_binding ks (spec s) r o e o1 He) as (o2 & H2).
+        exists e, o2. now split.
+      + destruct (spec_insert_new ks (spec s) r o) as (b & Hb & P). exists b, o. now split.
+    - cbn [step fst spec spec_seen]. rewrite K. intros e o1 He.
+      destruct (spec_insert_cases _ _ _ _ _ _ He) as [Q|[(_ & P & o0 & Q)|Q]].
+      + injection Q as -> ->. exists L, r, o. split; [exact AL|]. split; [apply Hrows; now left | reflexivity].
+      + exact (Or e o0 Q).
+      + exact (Or e o1 Q).
+  Qed.
+
+  (* a full row extends a stored row together with a lookup it agrees with: the domains are not empty and lookups bind values
+     of the domains *)
+  Hypothesis inhabited : forall L L0 r o, asked L -> asked L0 -> In (r, o) (f L0) -> compatible ks r L = true ->
+    exists b o', In (b, o') rel /\ sub_on ks (merge ks L r) b = true.
+
+  Lemma sub_on_merge L e : sub_on ks L (merge ks L e) = true.
+  Proof.
+    unfold sub_on. apply forallb_forall. intros k Hk. rewrite (merge_aget ks L e k Hk).
+    destruct (aget L k) as [v|]; [apply Nat.eqb_refl | reflexivity].
+  Qed.
+
+  Lemma compatible_ext_l a a' L : (forall k, In k ks -> aget a k = aget a' k) -> compatible ks a L = compatible ks a' L.
+  Proof. intros H. unfold compatible. apply forallb_ext_in''. intros k Hk. now rewrite (H k Hk). Qed.
+
+  Lemma covered_single s L : GoodS s -> binds_some ks L = true -> asked L -> NoDup (map fst L) ->
+    fst (ic_check (impl s) L) = true -> exists o0, snd (cached_step_f s L) = [(L, o0)].
+  Proof.
+    intros ([B C] & SS & Or) BS AL ND Cov. pose proof (base_chk s L B BS) as B1. destruct (chk_same s L) as (E1 & E2 & E3).
+    unfold cached_step_f. rewrite Cov. cbn [snd].
+    assert (RK : replay_keeps_most_general = true) by reflexivity. rewrite RK.
+    destruct B as (K & I & St & Ix & V).
+    rewrite (check_exact s L I) in Cov by now rewrite K. rewrite K in Cov.
+    apply existsb_exists in Cov as (a & Ha & Ca). destruct (SS a Ha) as (e0 & o0 & He0 & P0).
+    assert (Sa : sub_on ks a L = true) by (rewrite <- sub_on_restrict; now apply covers_sub_on).
+    assert (S0 : sub_on ks e0 L = true) by (rewrite <- Sa; apply sub_on_ext_l; intros k Hk; now apply pattern_aget).
+    destruct B1 as (K1 & _ & St1 & Ix1 & _).
+    assert (NE1 : keys (impl (fst (step s (OChk L)))) <> []) by now rewrite K1.
+    pose proof (retrieve_exact_state _ L NE1 St1 Ix1) as PERM. rewrite K1, E2 in PERM.
+    exists o0. apply most_general_single.
+    - apply (Permutation_in _ (Permutation_sym PERM)). unfold spec_retrieve. apply in_map_iff. exists (e0, o0). cbn [fst snd]. split.
+      + f_equal. apply merge_covered. intros k Hk HL. unfold sub_on in S0. rewrite forallb_forall in S0. specialize (S0 k Hk).
+        rewrite HL in S0. destruct (aget e0 k); [discriminate | reflexivity].
+      + apply filter_In. split; [exact He0|]. cbn [fst]. apply (sub_compat e0 L L S0). apply agree_compat. reflexivity.
+    - apply covers_extends; [exact ND | auto].
+    - intros [m o] Hm. apply (Permutation_in _ PERM) in Hm. unfold spec_retrieve in Hm. apply in_map_iff in Hm as ([e oe] & E & He).
+      cbn [fst snd] in E. injection E as <- <-. apply filter_In in He as [He Ce]. cbn [fst] in Ce. cbn [fst snd].
+      destruct (merge_shape L e) as [Sh Ag]. split.
+      + destruct (Or e oe He) as (L0 & r & o1 & A0 & Hr & Pr).
+        assert (Cr : compatible ks r L = true) by (rewrite <- Ce; apply compatible_ext_l; intros k Hk; symmetry; now apply pattern_aget).
+        destruct (inhabited L L0 r o1 AL A0 Hr Cr) as (b & o' & Hb & Sb).
+        assert (Sb' : sub_on ks (merge ks L e) b = true).
+        { rewrite <- Sb. apply sub_on_ext_l. intros k Hk. rewrite !merge_aget by exact Hk.
+          destruct (aget L k); [reflexivity|]. now apply pattern_aget. }
+        destruct (V e oe He) as [_ Fe]. rewrite <- (Fe b o' Hb (merged_entry_sub L e b Sb' Ce)).
+        destruct (V e0 o0 He0) as [_ F0]. apply (F0 b o' Hb).
+        eapply sub_on_trans; [exact S0|]. eapply sub_on_trans; [apply sub_on_merge | exact Sb'].
+      + destruct Sh as [Sh|Sh]; [now left|]. right. split; [exact Sh|]. now apply covers_extends.
+  Qed.
+
+  Lemma cached_step_f_rows s L : GoodS s -> binds_some ks L = true -> asked L -> NoDup (map fst L) ->
+    (if fst (ic_check (impl s) L) then exists o, snd (cached_step_f s L) = [(L, o)] else snd (cached_step_f s L) = f L) /\
+    GoodS (fst (cached_step_f s L)).
+  Proof.
+    intros G BS AL ND. split.
+    - destruct (fst (ic_check (impl s) L)) eqn:Cov; [now apply covered_single|]. unfold cached_step_f. now rewrite Cov.
+    - destruct G as (GD & SS & Or). split; [exact (proj2 (cached_step_f_ok s L GD BS AL))|].
+      destruct (chk_same s L) as (E1 & E2 & E3). unfold cached_step_f.
+      assert (FC : row_flag_is_current = true) by reflexivity. rewrite FC.
+      destruct (fst (ic_check (impl s) L)); cbn [fst].
+      + split; [intros a Ha; rewrite E3 in Ha; rewrite E2; exact (SS a Ha) | intros e o He; rewrite E2 in He; exact (Or e o He)].
+      + apply (extra_store L (f L) AL (fun r o H => H)).
+        * rewrite keys_step. now destruct GD as [(K & _) _].
+        * intros a Ha. rewrite E3 in Ha. rewrite E2. exact (SS a Ha).
+        * intros e o He. rewrite E2 in He. exact (Or e o He).
+  Qed.
+
+  (* no full row is stood for by two rows of an answer *)
+  Definition once (rows : list entry) : Prop :=
+    forall i j ri oi rj oj b, nth_error rows i = Some (ri, oi) -> nth_error rows j = Some (rj, oj) ->
+      full ks b = true -> sub_on ks ri b = true -> sub_on ks rj b = true -> i = j.
+
+  Lemma once_single e : once [e].
+  Proof.
+    intros i j ri oi rj oj b Hi Hj _ _ _. destruct i as [|i]; [|destruct i; discriminate]. destruct j as [|j]; [reflexivity | destruct j; discriminate].
+  Qed.
+
+  (* rows that disagree pairwise on a key both bind stand for disjoint sets of full rows *)
+  Definition pairwise_apart (rows : list entry) : bool :=
+    let ix := combine (seq 0 (length rows)) rows in
+    forallb (fun ie => forallb (fun je => Nat.eqb (fst ie) (fst je) || negb (compatible ks (fst (snd ie)) (fst (snd je)))) ix) ix.
+
+  Lemma once_of_apart rows : pairwise_apart rows = true -> once rows.
+  Proof.
+    unfold pairwise_apart. intros H i j ri oi rj oj b Hi Hj Fb Si Sj. rewrite forallb_forall in H.
+    assert (Ii : In (i, (ri, oi)) (combine (seq 0 (length rows)) rows)) by (apply in_indexed; split; [lia | now rewrite Nat.sub_0_r]).
+    assert (Ij : In (j, (rj, oj)) (combine (seq 0 (length rows)) rows)) by (apply in_indexed; split; [lia | now rewrite Nat.sub_0_r]).
+    specialize (H _ Ii). rewrite forallb_forall in H. specialize (H _ Ij). cbn [fst snd] in H.
+    apply Bool.orb_prop in H as [H|H]; [now apply Nat.eqb_eq|]. exfalso. apply Bool.negb_true_iff in H.
+    assert (C : compatible ks ri rj = true); [|congruence].
+    unfold compatible, sub_on in *. rewrite forallb_forall in *. intros k Hk. specialize (Si k Hk). specialize (Sj k Hk).
+    destruct (aget ri k) as [x|]; [|reflexivity]. destruct (aget rj k) as [y|]; [|reflexivity].
+    destruct (aget b k) as [z|]; [|discriminate]. apply Nat.eqb_eq in Si, Sj. subst. apply Nat.eqb_refl.
+  Qed.
+
+  Hypothesis f_once : forall L, asked L -> once (f L).
+
+  (* ANY history of lookups: each answer of the cached call site is the operator's own rows for the lookup (evaluated), or the
+     single row "the lookup itself" (covered); so no assignment comes out twice *)
+  Theorem cached_run_rows Ls : forall s, GoodS s -> Forall (fun L => binds_some ks L = true /\ asked L /\ NoDup (map fst L)) Ls ->
+    Forall2 (fun rows L => (rows = f L \/ exists o, rows = [(L, o)]) /\ once rows) (cached_run_f s Ls) Ls.
+  Proof.
+    induction Ls as [|L Ls IH]; intros s G F; cbn [cached_run_f]; [constructor|].
+    inversion F as [|? ? (FL & AL & ND) FLs]; subst. destruct (cached_step_f_rows s L G FL AL ND) as [R G']. constructor; [|now apply IH].
+    destruct (fst (ic_check (impl s) L)).
+    - destruct R as [o R]. rewrite R. split; [right; now exists o | apply once_single].
+    - rewrite R. split; [now left | now apply f_once].
+  Qed.
+
+  Corollary cached_rows_once Ls : Forall (fun L => binds_some ks L = true /\ asked L /\ NoDup (map fst L)) Ls ->
+    Forall2 (fun rows L => (rows = f L \/ exists o, rows = [(L, o)]) /\ once rows) (cached_run_f (init ks) Ls) Ls.
+  Proof. apply cached_run_rows, goodS_init. Qed.
 End Den.
